@@ -188,7 +188,7 @@ def main():
             o.get_Hamiltonian().data
             o.get_TransitionDipoleMoment().data
 
-    UNITS = ["int", "1/cm", "eV"]
+    UNITS = ["int", "1/cm", "eV", "nm"]      # nm: the reciprocal unit
     for name, ent in registry.items():
         factory, observable = ent[0], ent[1]
         if observable is None:
@@ -201,7 +201,8 @@ def main():
         # non-commuting operators, object accessed in the inner one) and
         # "2o" (accessed in the outer context only, saved in the inner one)
         for ds, dl in itertools.product((0, 1, 2, "2o"), (0, 1, 2)):
-            for us, ul in ([("int", "int"), ("1/cm", "eV"), ("eV", "int")]
+            for us, ul in ([("int", "int"), ("1/cm", "eV"), ("eV", "int"),
+                            ("int", "nm"), ("nm", "1/cm")]
                            if not ck.thorough else
                            itertools.product(UNITS, repeat=2)):
                 rp = dict(kind="parcel", cls=name, save_depth=ds,
